@@ -199,7 +199,7 @@ class Creds:
     def file_json(self, crypt_fn):
         d = {"users": {}}
         for name, u in self.users.items():
-            e = {"password": crypt_fn(u["password"]),
+            e = {"password": u["hash"] if u.get("hash") is not None else crypt_fn(u["password"]),
                  "auth": {k: u[k] for k in ("fetchGroups", "setGroups", "callGroups") if k in u}}
             if u.get("admin"):
                 e["admin"] = True
